@@ -248,6 +248,9 @@ impl Property for C10 {
             h5: a.mode == Mode::StreamIncomplete && a.m_sel % 3 == 0,
         }
     }
+    fn alloc_failure_is_violation(&self) -> bool {
+        true
+    }
     fn rule(&self) -> String {
         "proptest generates a valid LZMA stream (all lc/lp/pb, dictionary D from the header (>= 4096) or raw with tiny D, output length L from a symbol program incl. long copies so that L > D occurs), need = min(D, L), a limit m from {0, need-1, need, need+1, D-1, D, D+1, usize::MAX, usize::MAX-1, random below / above need, 2^32 + (value below need), k*2^32, need/2}, and a decoder {lzma_decompress_with_options, raw::LzmaDecoder, Stream under a generated chunking}. Oracle: need <= m => same verdict (Ok) and byte-identical output as the run without a limit; need > m => Err. Secondary: with a non-allocating (hashing) sink the peak growth of live heap during the decode (counting allocator) stays below fixed(lc,lp) + 4*min(m, need) + 64 KiB. Non-trivial = m within +-1 of need or of D, or >= 2^32; distinct = SipHash of the concrete case.".into()
     }
